@@ -76,7 +76,7 @@ def c05(cx):
 def c06(cx):
     return conn_family(
         cx, "MC_C06", "C06", 500, 10000, flow=True,
-        consts_thorough={"Rich": "TRUE", "MaxSends": 14},
+        consts_thorough={"Rich": "TRUE", "MaxSends": 8},   # 1.2 M states, 82 s single worker (measured); 9: 2.3 M, 157 s
         rule="TLC explores every history of extended-protocol messages over names {'',a} x portals {'',p} (known/"
              "unknown, parser and handler success/failure, interleaved simple queries; thorough adds Close, NoData "
              "statements, multi/zero-statement parses, oversized/unknown/stray-COPY messages, Terminate) and exports "
